@@ -35,7 +35,7 @@ func VerifC12Watch() {
 	var insW []wkey
 	// PRESET: concrete pre-state shapes that need 3+ keys (inner node with a
 	// leaf and one/two children below a node4 root), then N1 symbolic inserts
-	for _, k := range [][]string{nil, {"a", "ab", "x"}, {"ab", "abc", "abd", "x"}, {"a", "ab", "abc", "x"}, nil}[vnd.Param("PRESET", 0)] {
+	for _, k := range [][]string{nil, {"a", "ab", "x"}, {"ab", "abc", "abd", "x"}, {"a", "ab", "abc", "x"}, nil, {"ab", "ac", "x"}}[vnd.Param("PRESET", 0)] {
 		txn.Insert([]byte(k), 5)
 		model.Put([]byte(k), 5)
 	}
